@@ -3,5 +3,6 @@ CONSTANTS
   N = 2
   MaxSeeds = 2
   BugSeedsNotDeduplicated = TRUE
+  BugSeenBeforeAccepted = FALSE
 INVARIANTS NeverTwice Complete
 PROPERTY Terminates
